@@ -941,3 +941,482 @@ func TestVerifC13Endpoint(t *testing.T) {
 		return map[string]any{"steps": c13RunECase(c)}
 	})
 }
+
+// ---------------------------------------------------------------------------------------------
+// part 4: UdpEndpointPool under a deterministic scheduler on the endpoint yield points.
+// GetOrCreate callers are goroutines that park at endpoint.getorcreate.after_stale_unlock,
+// endpoint.create.after_generation / before_publish / before_register; a caller blocked on the shard's
+// creation mutex is recognised by its goroutine state.  Invalidate / WriteTo / Track / Reset run
+// inline between the callers' steps.
+// ---------------------------------------------------------------------------------------------
+
+type c13FThread struct {
+	K   int `json:"k"`
+	D   int `json:"d"`
+	G   int `json:"g"`
+	Out int `json:"out"`
+}
+
+type c13FCmd struct {
+	Kind string `json:"kind"` // step | write | track | inval | reset
+	I    int    `json:"i"`    // step: thread
+	E    int    `json:"e"`    // write/track: handle (dial order)
+	Out  int    `json:"out"`
+	T    int    `json:"t"`
+	D    int    `json:"d"`
+}
+
+type c13FCase struct {
+	Keys    int          `json:"keys"`
+	Dialers int          `json:"dialers"`
+	Gens    int          `json:"gens"`
+	Threads []c13FThread `json:"threads"`
+	Cmds    []c13FCmd    `json:"cmds"`
+}
+
+type c13FStep struct {
+	Cmd    c13FCmd `json:"cmd"`
+	Thr    [][]int `json:"thr"`    // per thread: state (0 unstarted 1 blocked 2..5 parked 6 done), result code
+	Events [][]int `json:"events"` // [0,e,thread] dial  [1,thread,e] hand-out  [2,e] write ok  [3,e] write error  [4,d] inval  [5] reset
+	Dials  int     `json:"dials"`
+	Eps    [][]int `json:"eps"`
+	Pool   []int   `json:"pool"`
+	Tuples [][]int `json:"tuples"`
+	Drain  []int   `json:"drain"`
+}
+
+type c13FRes struct {
+	Steps       []c13FStep `json:"steps"`
+	FinalCloses []int      `json:"final_closes"` // transport close calls per endpoint after the final pool Reset
+	Stuck       string     `json:"stuck,omitempty"`
+}
+
+type c13FEntry struct {
+	thread, point int
+	rel           chan struct{}
+}
+
+type c13FSched struct {
+	mu      sync.Mutex
+	parked  map[int]*c13FEntry // by thread
+	gidThr  map[int64]int
+	thrGid  []int64
+	started []bool
+	done    []bool
+	resCode []int
+	events  [][]int
+	conns   []*c13Conn
+	connUe  map[*c13Conn]*UdpEndpoint
+	abort   bool
+}
+
+func (s *c13FSched) hook(point string) {
+	code := 0
+	switch point {
+	case "endpoint.getorcreate.after_stale_unlock":
+		code = 2
+	case "endpoint.create.after_generation":
+		code = 3
+	case "endpoint.create.before_publish":
+		code = 4
+	case "endpoint.create.before_register":
+		code = 5
+	default:
+		return
+	}
+	gid := c13Goid()
+	s.mu.Lock()
+	i, ok := s.gidThr[gid]
+	if !ok || s.abort {
+		s.mu.Unlock()
+		return
+	}
+	e := &c13FEntry{thread: i, point: code, rel: make(chan struct{})}
+	s.parked[i] = e
+	s.mu.Unlock()
+	<-e.rel
+}
+
+func (s *c13FSched) handleOf(ue *UdpEndpoint) int {
+	if ue == nil {
+		return -1
+	}
+	cn, ok := ue.conn.(*c13Conn)
+	if !ok {
+		return -1
+	}
+	for i, c := range s.conns {
+		if c == cn {
+			s.connUe[cn] = ue
+			return i
+		}
+	}
+	return -1
+}
+
+type c13FDialer struct {
+	s    *c13FSched
+	fail map[int]bool // by thread
+}
+
+func (d *c13FDialer) DialContext(ctx context.Context, _ string, _ string) (netproxy.Conn, error) {
+	gid := c13Goid()
+	d.s.mu.Lock()
+	defer d.s.mu.Unlock()
+	th, ok := d.s.gidThr[gid]
+	if ok && d.fail[th] {
+		d.s.events = append(d.s.events, []int{6, th})
+		return nil, io.ErrUnexpectedEOF
+	}
+	c := &c13Conn{closeCh: make(chan struct{})}
+	d.s.conns = append(d.s.conns, c)
+	d.s.events = append(d.s.events, []int{0, len(d.s.conns) - 1, th})
+	return c, nil
+}
+
+func c13RunFCase(c c13FCase) (res c13FRes) {
+	p := &UdpEndpointPool{}
+	for i := range p.shards {
+		p.shards[i].pool = make(map[UdpEndpointKey]*UdpEndpoint)
+	}
+	// keys in pairwise distinct creation shards (the model has one creation mutex per key)
+	keys := make([]UdpEndpointKey, 0, c.Keys)
+	used := map[*udpEndpointPoolShard]bool{}
+	for port := 4000; len(keys) < c.Keys; port++ {
+		k := UdpEndpointKey{Src: netip.AddrPortFrom(netip.AddrFrom4([4]byte{192, 0, 2, 1}), uint16(port))}
+		if sh := p.shardFor(k); !used[sh] {
+			used[sh] = true
+			keys = append(keys, k)
+		}
+	}
+	s := &c13FSched{parked: map[int]*c13FEntry{}, gidThr: map[int64]int{}, thrGid: make([]int64, len(c.Threads)),
+		started: make([]bool, len(c.Threads)), done: make([]bool, len(c.Threads)), resCode: make([]int, len(c.Threads)),
+		connUe: map[*c13Conn]*UdpEndpoint{}}
+	VerifYield = s.hook
+	logger := logrus.New()
+	logger.SetOutput(io.Discard)
+	under := make([]*c13FDialer, c.Dialers)
+	dialers := make([]*componentdialer.Dialer, c.Dialers)
+	for i := range dialers {
+		under[i] = &c13FDialer{s: s, fail: map[int]bool{}}
+		dialers[i] = componentdialer.NewDialer(under[i], &componentdialer.GlobalOption{Log: logger, CheckInterval: time.Second},
+			componentdialer.InstanceOption{DisableCheck: true}, &componentdialer.Property{})
+	}
+	for i, t := range c.Threads {
+		under[t.D].fail[i] = t.Out == 1
+	}
+	cores := make([]*controlPlaneCore, c.Gens)
+	drains := make([]*controlPlaneDrainTracker, c.Gens)
+	for i := range cores {
+		cores[i] = &controlPlaneCore{}
+		drains[i] = newControlPlaneDrainTracker()
+	}
+	nt := &componentdialer.NetworkType{L4Proto: consts.L4ProtoStr_UDP, IpVersion: consts.IpVersionStr_4, IsDns: false,
+		UdpHealthDomain: componentdialer.UdpHealthDomainData}
+	tupleIdx := map[bpfTuplesKey]int{}
+	tupleAddr := func(t int) (netip.AddrPort, netip.AddrPort) {
+		return netip.AddrPortFrom(netip.AddrFrom4([4]byte{10, 9, 0, byte(t + 1)}), 5000),
+			netip.AddrPortFrom(netip.AddrFrom4([4]byte{198, 51, 100, 7}), 443)
+	}
+	for t := 0; t < 4; t++ {
+		a, b := tupleAddr(t)
+		tupleIdx[bpfTuplesKeyFromAddrPorts(a, b, 17)] = 2 * t
+		tupleIdx[bpfTuplesKeyFromAddrPorts(b, a, 17)] = 2*t + 1
+	}
+	defer func() {
+		s.mu.Lock()
+		s.abort = true
+		for i, e := range s.parked {
+			close(e.rel)
+			delete(s.parked, i)
+		}
+		s.mu.Unlock()
+		time.Sleep(300 * time.Microsecond)
+		p.Reset()
+		VerifYield = nil
+	}()
+	start := func(i int) {
+		t := c.Threads[i]
+		s.started[i] = true
+		go func() {
+			gid := c13Goid()
+			s.mu.Lock()
+			s.gidThr[gid] = i
+			s.thrGid[i] = gid
+			s.mu.Unlock()
+			opt := &UdpEndpointOptions{
+				Handler:        func(*UdpEndpoint, []byte, netip.AddrPort) error { return nil },
+				NatTimeout:     time.Hour,
+				ConnStateOwner: cores[t.G],
+				DrainTracker:   drains[t.G],
+				GetDialOption: func(context.Context) (*DialOption, error) {
+					if t.Out == 2 {
+						return nil, ob.ErrNoAliveDialer
+					}
+					return &DialOption{Dialer: dialers[t.D], Network: "udp", Target: "198.51.100.1:443", NetworkType: nt}, nil
+				},
+			}
+			ue, isNew, err := p.GetOrCreate(keys[t.K], opt)
+			s.mu.Lock()
+			code := 0
+			if err != nil {
+				code = 4
+				if stderrors.Is(err, ErrEndpointFailed) {
+					code = 2
+				}
+			}
+			if isNew {
+				code++
+			}
+			s.resCode[i] = code
+			if ue != nil {
+				s.events = append(s.events, []int{1, i, s.handleOf(ue)})
+			}
+			s.done[i] = true
+			s.mu.Unlock()
+		}()
+	}
+	settle := func() string {
+		deadline := time.Now().Add(4 * time.Second)
+		for {
+			time.Sleep(15 * time.Microsecond)
+			st := c13Statuses()
+			s.mu.Lock()
+			stable := true
+			for i := range c.Threads {
+				if !s.started[i] || s.parked[i] != nil {
+					continue
+				}
+				g := s.thrGid[i]
+				if g == 0 {
+					stable = false
+					continue
+				}
+				status, alive := st[g]
+				if s.done[i] {
+					if alive {
+						stable = false
+					}
+					continue
+				}
+				if !alive || !(strings.HasPrefix(status, "sync.Mutex.Lock") || strings.HasPrefix(status, "semacquire") || strings.HasPrefix(status, "sync.RWMutex")) {
+					stable = false
+				}
+			}
+			s.mu.Unlock()
+			if stable {
+				return ""
+			}
+			if time.Now().After(deadline) {
+				return "settle timeout"
+			}
+		}
+	}
+	observe := func(cmd c13FCmd) c13FStep {
+		s.mu.Lock()
+		defer s.mu.Unlock()
+		st := c13FStep{Cmd: cmd, Events: s.events, Eps: [][]int{}, Tuples: [][]int{}}
+		if st.Events == nil {
+			st.Events = [][]int{}
+		}
+		s.events = nil
+		for i := range c.Threads {
+			code := 0
+			switch {
+			case !s.started[i]:
+			case s.done[i]:
+				code = 6
+			case s.parked[i] != nil:
+				code = s.parked[i].point
+			default:
+				code = 1
+			}
+			rc := 0
+			if code == 6 {
+				rc = s.resCode[i]
+			}
+			st.Thr = append(st.Thr, []int{code, rc})
+		}
+		for _, u := range under {
+			_ = u
+		}
+		st.Dials = 0
+		for _, ev := range [][]int{} {
+			_ = ev
+		}
+		// pool view (also teaches us the endpoint objects of published conns)
+		for k := 0; k < c.Keys; k++ {
+			sh := p.shardFor(keys[k])
+			sh.mu.RLock()
+			ue, ok := sh.pool[keys[k]]
+			sh.mu.RUnlock()
+			v := -1
+			if ok {
+				if ue.failed.Load() {
+					v = -2
+				} else {
+					v = s.handleOf(ue)
+					if v < 0 {
+						v = -3
+					}
+				}
+			}
+			st.Pool = append(st.Pool, v)
+		}
+		for _, cn := range s.conns {
+			dead := 0
+			if ue := s.connUe[cn]; ue != nil && ue.IsDead() {
+				dead = 1
+			}
+			cn.mu.Lock()
+			cc := cn.closeCalls
+			cn.mu.Unlock()
+			st.Eps = append(st.Eps, []int{dead, cc})
+		}
+		for g, cr := range cores {
+			tr := cr.getUdpConnStateTracker()
+			tr.mu.Lock()
+			for k, e := range tr.entries {
+				st.Tuples = append(st.Tuples, []int{g, tupleIdx[k], e.refs})
+			}
+			tr.mu.Unlock()
+			st.Drain = append(st.Drain, drains[g].Count())
+		}
+		sort.Slice(st.Tuples, func(a, b int) bool {
+			if st.Tuples[a][0] != st.Tuples[b][0] {
+				return st.Tuples[a][0] < st.Tuples[b][0]
+			}
+			return st.Tuples[a][1] < st.Tuples[b][1]
+		})
+		return st
+	}
+	dialCount := 0
+	exec := func(cmd c13FCmd) bool {
+		switch cmd.Kind {
+		case "step":
+			if cmd.I < len(c.Threads) {
+				s.mu.Lock()
+				e := s.parked[cmd.I]
+				if e != nil {
+					delete(s.parked, cmd.I)
+				}
+				startIt := !s.started[cmd.I]
+				s.mu.Unlock()
+				if e != nil {
+					close(e.rel)
+				} else if startIt {
+					start(cmd.I)
+				}
+			}
+		case "write":
+			s.mu.Lock()
+			var ue *UdpEndpoint
+			handed := false
+			if cmd.E < len(s.conns) {
+				ue = s.connUe[s.conns[cmd.E]]
+			}
+			_ = handed
+			s.mu.Unlock()
+			if ue != nil && c13FHanded(res.Steps, cmd.E) {
+				cn := s.conns[cmd.E]
+				cn.mu.Lock()
+				cn.writeErr = cmd.Out == 1
+				cn.mu.Unlock()
+				_, err := ue.WriteTo([]byte("x"), "198.51.100.1:443")
+				s.mu.Lock()
+				if err != nil {
+					s.events = append(s.events, []int{3, cmd.E})
+				} else {
+					s.events = append(s.events, []int{2, cmd.E})
+				}
+				s.mu.Unlock()
+			}
+		case "track":
+			s.mu.Lock()
+			var ue *UdpEndpoint
+			if cmd.E < len(s.conns) {
+				ue = s.connUe[s.conns[cmd.E]]
+			}
+			s.mu.Unlock()
+			if ue != nil && c13FHanded(res.Steps, cmd.E) {
+				a, b := tupleAddr(cmd.T)
+				ue.TrackUdpConnStateTuplePair(a, b)
+			}
+		case "inval":
+			p.InvalidateDialerNetworkType(dialers[cmd.D], nt)
+			s.mu.Lock()
+			s.events = append(s.events, []int{4, cmd.D})
+			s.mu.Unlock()
+		case "reset":
+			p.Reset()
+			s.mu.Lock()
+			s.events = append(s.events, []int{5})
+			s.mu.Unlock()
+		}
+		if stuck := settle(); stuck != "" {
+			res.Stuck = stuck
+			return false
+		}
+		st := observe(cmd)
+		for _, ev := range st.Events {
+			if ev[0] == 0 || ev[0] == 6 {
+				dialCount++
+			}
+		}
+		st.Dials = dialCount
+		res.Steps = append(res.Steps, st)
+		return true
+	}
+	for _, cmd := range c.Cmds {
+		if !exec(cmd) {
+			return res
+		}
+	}
+	// drain: step every unfinished thread (lowest index first) until all have returned
+	for n := 0; n < 8*len(c.Threads)+8; n++ {
+		next := -1
+		s.mu.Lock()
+		for i := range c.Threads {
+			if !s.done[i] && (!s.started[i] || s.parked[i] != nil) {
+				next = i
+				break
+			}
+		}
+		s.mu.Unlock()
+		if next < 0 {
+			break
+		}
+		if !exec(c13FCmd{Kind: "step", I: next}) {
+			return res
+		}
+	}
+	p.Reset()
+	for _, cn := range s.conns {
+		cn.mu.Lock()
+		res.FinalCloses = append(res.FinalCloses, cn.closeCalls)
+		cn.mu.Unlock()
+	}
+	return res
+}
+
+// an endpoint may be written to only after some caller was handed it
+func c13FHanded(steps []c13FStep, e int) bool {
+	for _, st := range steps {
+		for _, ev := range st.Events {
+			if ev[0] == 1 && ev[2] == e {
+				return true
+			}
+		}
+	}
+	return false
+}
+
+func TestVerifC13EndpointFine(t *testing.T) {
+	verifEachLine(t, func(line []byte) any {
+		var c c13FCase
+		if err := json.Unmarshal(line, &c); err != nil {
+			return map[string]string{"panic": "bad case: " + err.Error()}
+		}
+		return c13RunFCase(c)
+	})
+}
